@@ -216,6 +216,15 @@ Definition sep_bytes (s : sepchoice) : bytes :=
 Definition md_write (target : bytes) (paths : list bytes) (sep : sepchoice) : bytes :=
   md_escape target ++ [58] ++ flat_map (fun p => sep_bytes sep ++ md_escape p) paths ++ [10].
 
+(* the same with a chosen line end: LF, CRLF, or none (the file ends right after the last path) *)
+Inductive eolchoice := EolLF | EolCRLF | EolNone.
+
+Definition eol_bytes (e : eolchoice) : bytes :=
+  match e with EolLF => [10] | EolCRLF => [13; 10] | EolNone => [] end.
+
+Definition md_write_eol (target : bytes) (paths : list bytes) (sep : sepchoice) (eol : eolchoice) : bytes :=
+  md_escape target ++ [58] ++ flat_map (fun p => sep_bytes sep ++ md_escape p) paths ++ eol_bytes eol.
+
 (* a file with several rules *)
 Definition md_write_rules (rules : list (bytes * list bytes * sepchoice)) : bytes :=
   flat_map (fun r => md_write (fst (fst r)) (snd (fst r)) (snd r)) rules.
